@@ -58,7 +58,8 @@ ALPHABET = [
     ["join", {"src": "R"}, "left", [["eq", Cn("k"), kR]]],
     ["join", {"src": "R"}, "full", [["eq", Cn("k"), kR]]],
     ["select", [Cn("k"), Cn("x")]],
-    ["mutate", [["x", ["mul", Cn("x"), lit(2)]]]],  # overwrite
+    ["mutate", [["x", ["sub", lit(10), Cn("x")]]]],  # overwrite (order-reversing, so that a mix-up of old and new x shows)
+    ["mutate", [["c", lit(1)]]],  # constant column (must not be padded with the constant by an outer join)
 ]
 ALIAS = ["alias"]
 SIMPLE = {"filter:ewise", "mutate:ewise", "select", "rename", "arrange"}
@@ -81,7 +82,7 @@ def alphabet(st, hist):
 # (a hidden column that is still needed across the subquery: order key, old reference)
 REDUCED = [
     ["arrange", [["desc", ["nulls_last", Cn("x")]], Cn("k")]],
-    ["mutate", [["x", ["mul", Cn("x"), lit(2)]]]],
+    ["mutate", [["x", ["sub", lit(10), Cn("x")]]]],
     ["mutate", [["w", ["sum", Cn("x")]]]],
     ["slice_head", 2, 0],
     ["filter", [["gt", Cn("k"), lit(1)]]],
@@ -89,7 +90,12 @@ REDUCED = [
     ["summarize", [["a1", ["sum", Cn("x")]]]],
     ["join", {"src": "R"}, "left", [["eq", Cn("k"), kR]]],
     ["group_by", [Cn("g")]],
+    # the source column through the reference of the source table: after an overwrite it is the
+    # hidden original (the model disables it once the reference is out of scope)
+    ["filter", [["gt", ["col", "src", "T", "x"], lit(2)]]],
+    ["mutate", [["o", ["add", ["col", "src", "T", "x"], lit(0)]]]],
 ]
+ALIAS_KEEP = ["alias", None, True]
 
 
 def alphabet_b(depth):
@@ -97,7 +103,7 @@ def alphabet_b(depth):
         n = size(hist)
         out = list(REDUCED)
         if n == depth - 1 and hist[-1][0] != "alias":
-            out = [ALIAS] + out
+            out = [ALIAS, ALIAS_KEEP] + out
         return out
     return f
 
@@ -148,7 +154,8 @@ def check_c08(step):
             with warnings.catch_warnings():
                 warnings.simplefilter("ignore")
                 try:
-                    aliased = parent >> pdt.alias()
+                    # (an event that uses the reference of the source table needs the references kept)
+                    aliased = parent >> (pdt.alias(keep_col_refs=True) if '"src"' in __import__("json").dumps(step.event) else pdt.alias())
                     res = I.apply_event(aliased, step.event, ctx)
                     df = res >> pdt.export(pdt.Polars())
                     # and then it is compiled correctly: same frame as polars gave
